@@ -313,6 +313,18 @@ for si in range(nsets):
     cases.append("([%s], [%s], [%s])" % (";\n ".join(obs), "; ".join(pairs), "; ".join(ordered)))
     meta.append(dict(atoms=label, n=n, formulas=len(forms), charge_tie=bool(tie), ordered=texts))
 
+# ------------------------------------------------------------------ named formulas, formulas with a density
+stats["named"] = 0
+for text, nm in (("CH4O", "methanol"), ("C2H6O@0.789", "ethanol"), ("H2O@1", "water"), ("NaCl", "salt")):
+    try:
+        f, g = formula(text, name=nm), formula(text)
+        stats["named"] += 1
+        if str(f.hill) != str(g.hill) or f.hill != g.hill:
+            fail("C19:hill-of-named-formula", "formula(%r, name=%r).hill prints %r, formula(%r).hill prints %r (equal atom counts have equal "
+                 "Hill forms)" % (text, nm, str(f.hill), text, str(g.hill)), input="formula(%r, name=%r).hill" % (text, nm))
+    except Exception as e:  # noqa
+        fail("C19:raises", "Hill form of a named formula raised %s: %s" % (type(e).__name__, e), input=text)
+
 # ------------------------------------------------------------------ counts that are not short decimals
 # thirds, sevenths, sums such as 0.1 + 0.2, and counts below 1e-12: the Hill form has exactly the atom counts of the
 # formula (it is built from them), whatever their digits
